@@ -26,7 +26,7 @@ ASSUMPTIONS = [
     "the undisturbed run of the same problem is the reference; the library is deterministic for a fixed request history (checked by C10)",
     "custom solve_sylvester excludes fully_diagonalize (NotImplementedError by design), so selections are not part of this check",
 ]
-BUDGET = {"quick": dict(cases=180, seconds=75), "thorough": dict(cases=6000, seconds=540)}
+BUDGET = {"quick": dict(cases=300, seconds=75), "thorough": dict(cases=6000, seconds=540)}
 CASE_TIMEOUT = 200
 MONITORS = {"product": False, "solvers": False}
 MONITOR_VERDICTS = ("pending",)
@@ -96,17 +96,19 @@ def plan(tier, seed):
     n = BUDGET[tier]["cases"]
     for i in range(n):
         fam = "series" if i % 6 == 5 else "bd"
-        specs.append(dict(family=fam, case=int(rng.integers(0, 2**31)), exc=["Exception", "RuntimeError", "KeyboardInterrupt"][i % 3], double=bool(i % 7 == 0)))
+        specs.append(dict(family=fam, case=int(rng.integers(0, 2**31)), exc=["Exception", "RuntimeError", "KeyboardInterrupt"][i % 3], double=bool(i % 7 == 0), tier=tier))
     return specs
 
 
 # ---------------------------------------------------------------------------------------------
-def _problem(rng):
+def _problem(rng, tier="quick"):
     nb = int(rng.integers(2, 4))
     sizes = [int(rng.integers(1, 3)) for _ in range(nb)]
     hermitian = bool(rng.integers(0, 2))
     n_par = int(rng.integers(1, 3))
     max_order = int(rng.integers(2, 5)) if n_par == 1 else 2
+    if tier == "quick" and nb == 3:
+        max_order = min(max_order, 3)  # the 3-block order-4 cases (~10 s each) are left to the thorough tier
     E = [np.arange(s, dtype=float) * 1.0 + 7.0 * b for b, s in enumerate(sizes)]
     P = {}
     firsts = [tuple(1 if q == k else 0 for q in range(n_par)) for k in range(n_par)]
@@ -204,7 +206,7 @@ def _check_propagation(exc_cls, ctl, err):
 
 def _run_bd(spec, counters):
     rng = rng_for(11, spec["case"])
-    pr = _problem(rng)
+    pr = _problem(rng, spec.get("tier", "quick"))
     nb, n_par = pr["nb"], pr["n_par"]
     orders = [o for o in itertools.product(range(pr["max_order"] + 1), repeat=n_par) if sum(o) <= pr["max_order"]]
     universe = [(s, i, j) + n for s in range(3) for i in range(nb) for j in range(nb) for n in orders]
